@@ -68,6 +68,8 @@ def run(ctx):
     H = hs["h_serde"]
     c = S.consts()
     quick = ctx.tier == "quick"
+    if ctx.replay and ctx.replay.get("key") in (S.KEY_PUBDATA, S.KEY_LIMIT):
+        return replay_boundary(ctx, H, c)
     if ctx.replay and "cases" in ctx.replay:
         cases = [tuple(x) for x in ctx.replay["cases"]]
         return compare(ctx, model, H, cases, {}, replaying=True)
@@ -144,6 +146,109 @@ def run(ctx):
                 j += 1
     ctx.cov["boundary_hits"] = dict(sorted(g.hits.items()))
     compare(ctx, model, H, cases, {"types": len(S.TYPES)})
+    boundary_findings(ctx, model, H, c, r)
+
+
+def replay_boundary(ctx, H, c):
+    """replay of one of the two keyed boundary findings: the implementation's own oracle must fail again"""
+    rp = ctx.replay
+    if rp["key"] == S.KEY_PUBDATA:
+        cases = [tuple(x) for x in rp["cases"]]
+    else:
+        ent = rp["construct"]["entity"]
+        cases = [("L" + ent, "dec", [ent, S.size_limit_witness(c, ent).hex()])]
+    p = os.path.join(ctx.work, "replay.txt")
+    S.write_cases(p, cases)
+    rc, res, orc, err = vlib.run_lines([H], p, timeout=900)
+    ctx.cov["evaluations"] = len(cases)
+    bad = [t for _, t in orc if t.startswith("re-encoding does not decode")]
+    if bad:
+        obj = {k: v for k, v in rp.items() if k not in ("seed",)}
+        obj["oracle"] = bad[0]
+        ctx.violation(obj, key=rp["key"])
+    elif rc != 0:
+        ctx.violation({"kind": "input", "rc": rc, "stderr": err[-1500:], "what": "harness died on the replayed input"})
+
+
+def boundary_findings(ctx, model, H, c, r):
+    """the two boundary statements of C11 that are false for the code as it is (Coq: C11_*_refuted), replayed on the
+    implementation and reported under stable keys; anything ELSE that goes wrong in the same range is a plain violation"""
+    # (a) PublicationData of canonical size MAX-2 .. MAX+6 inside VbkTx / ATV
+    pc = S.pubdata_limit_cases(r, c)
+    mx = c["MAX_PUBLICATIONDATA_SIZE"]
+    p = os.path.join(ctx.work, "pubdata-limit.txt")
+    S.write_cases(p, [x[:3] for x in pc])
+    _, mres, _, _ = S.run_model(model, p)
+    ires, orc, crashes = S.run_impl_bisect(ctx, H, [x[:3] for x in pc], timeout=600, tag="pub")
+    byid = {x[0]: x for x in pc}
+    failed = {}
+    for i, text in orc:
+        failed.setdefault(i, []).append(text)
+    hit = 0
+    known_hits, first_known = [], None
+    for cid, op, args, size in pc:
+        m, im, f = mres.get(cid), ires.get(cid), failed.get(cid, [])
+        expected_bad = size > mx
+        if expected_bad:
+            known = (m == "NOTWF" and len(f) == 1 and f[0].startswith("re-encoding does not decode") and
+                     "vbktx-publication-bytes+readvarlen-bad-range+range-above" in f[0])
+            if known:
+                hit += 1
+                known_hits.append((size, args[0]))
+                if first_known is None:
+                    first_known = {"kind": "input", "cases": [[cid, op, args]], "pubdata_canonical_size": size, "limit": mx,
+                                   "oracle": f[0],
+                                   "what": "a VbkTx whose PublicationData fields are all within their declared limits encodes, "
+                                           "but its own encoding does not decode (MAX_PUBLICATIONDATA_SIZE too small)"}
+            elif f or m != "NOTWF" or im is None or im.startswith("THROW"):
+                ctx.violation({"kind": "input", "cases": [[cid, op, args]], "pubdata_canonical_size": size, "oracle": f,
+                               "model": m, "impl": (im or "")[:300],
+                               "what": "unexpected behaviour just above MAX_PUBLICATIONDATA_SIZE"})
+        else:
+            if f or m != im:
+                ctx.violation({"kind": "input", "cases": [[cid, op, args]], "pubdata_canonical_size": size, "oracle": f,
+                               "model": (m or "")[:300], "impl": (im or "")[:300],
+                               "what": "round trip / size / model agreement fails at or below MAX_PUBLICATIONDATA_SIZE"})
+    if first_known is not None:
+        first_known["all_failing_sizes_and_entities"] = known_hits
+        ctx.violation(first_known, key=S.KEY_PUBDATA)
+    for case, rc, err in crashes[:2]:
+        ctx.violation({"kind": "input", "cases": [list(case[:3])] if case else [], "rc": rc, "stderr": err,
+                       "what": "harness process died on a PublicationData-limit case"})
+    ctx.cov["pubdata_limit_cases"] = {"run": len(pc), "range": [mx - 2, mx + 6], "known_finding_hits": hit}
+    ctx.cov["evaluations"] += len(pc)
+    # (b) re-encode stability at MAX_POPDATA_SIZE: multi-megabyte inputs, thorough tier only
+    if ctx.tier != "thorough":
+        ctx.cov["size_limit_witnesses"] = ("not run in quick (3 inputs of 5.5 MB); thorough replays them under key " + S.KEY_LIMIT)
+        return
+    res = {}
+    for ent in ("vbkpoptx", "vtb", "popdata"):
+        b = S.size_limit_witness(c, ent)
+        pth = os.path.join(ctx.work, "limit-%s.txt" % ent)
+        S.write_cases(pth, [("L" + ent, "dec", [ent, b.hex()])])
+        rc, r1, o1, err = vlib.run_lines([H], pth, timeout=900)
+        line = r1.get("L" + ent, "")
+        texts = [t for _, t in o1]
+        construction = {"entity": ent, "bytes": len(b), "sha256": __import__("hashlib").sha256(b).hexdigest(),
+                        "how": "props/_serde.py size_limit_witness(consts, '%s'): VbkPopTx, 18600 context blocks, btctx sized so "
+                               "that the raw tx buffer has exactly MAX_POPDATA_SIZE bytes with MerklePath index 0 written as 00" % ent}
+        res[ent] = {"decoded": line.startswith("V "), "oracle": texts[:2], "bytes": len(b)}
+        if rc != 0 or not line:
+            ctx.violation({"kind": "input", "construct": construction, "rc": rc, "stderr": err[-1500:],
+                           "what": "harness died on the size-limit witness"})
+        elif line.startswith("V ") and len(texts) == 1 and texts[0].startswith("re-encoding does not decode") and \
+                "readvarlen-bad-range+range-above" in texts[0]:
+            ctx.violation({"kind": "input", "construct": construction, "oracle": texts[0],
+                           "what": "a byte string that decodes re-encodes canonically into more bytes than the enclosing "
+                                   "length prefix allows: decode(encode(decode bs)) fails"}, key=S.KEY_LIMIT)
+        elif line.startswith("V ") and not texts:
+            ctx.broken.append("corr:size-limit witness %s: the implementation no longer shows the instability the model predicts "
+                              "(C11_reencode_at_size_limit_refuted)" % ent)
+        else:
+            ctx.violation({"kind": "input", "construct": construction, "impl": line[:300], "oracle": texts[:3],
+                           "what": "unexpected behaviour on the size-limit witness"})
+    ctx.cov["size_limit_witnesses"] = res
+    ctx.cov["evaluations"] += 3
 
 
 def compare(ctx, model, H, cases, info, replaying=False):
